@@ -112,14 +112,35 @@ func perform(tr *ctree.Tree, o *HOp, l *ctree.Leaf, now func() int64) (got *ctre
 			o.Err = err.Error()
 		}
 	case "glv":
+		var v interface{}
 		o.Call = now()
-		v := tr.GetLeafValue(o.Path)
+		switch {
+		case o.Via == "value" && len(o.Path) == 0:
+			v = tr.Value()
+		case o.Via == "value":
+			v = tr.Get(o.Path).Value() // Value is documented to be safe on a nil node
+		case o.Base > 0:
+			// through a sub-tree node (every method but Value, IsBranch, Children and String needs a non-nil receiver)
+			if n := tr.Get(o.Path[:o.Base]); n != nil {
+				v = n.GetLeafValue(o.Path[o.Base:])
+			}
+		default:
+			v = tr.GetLeafValue(o.Path)
+		}
 		o.Ret = now()
 		o.Got = obsInt(o, o.Path, v)
 	case "getleaf":
+		var h *ctree.Leaf
 		o.Call = now()
-		h := tr.GetLeaf(o.Path)
+		if o.Base > 0 {
+			if n := tr.Get(o.Path[:o.Base]); n != nil {
+				h = n.GetLeaf(o.Path[o.Base:])
+			}
+		} else {
+			h = tr.GetLeaf(o.Path)
+		}
 		o.Ret = now()
+		o.nd = (*ctree.Tree)(h)
 		switch {
 		case h == nil:
 			o.Node = "nil"
@@ -149,6 +170,11 @@ func perform(tr *ctree.Tree, o *HOp, l *ctree.Leaf, now func() int64) (got *ctre
 			}
 			return nil
 		}
+		if o.Via != "" || o.Base > 0 || (o.Kind == "walk" && len(o.Path) > 0) {
+			performVisitVariant(tr, o, nil, &kv, now)
+			o.KV = kv
+			break
+		}
 		o.Call = now()
 		switch {
 		case o.Kind == "query":
@@ -160,6 +186,8 @@ func perform(tr *ctree.Tree, o *HOp, l *ctree.Leaf, now func() int64) (got *ctre
 		}
 		o.Ret = now()
 		o.KV = kv
+	case "children", "isbranch", "nkids", "nisbr", "nval", "nstr", "nwalk":
+		performAccess(tr, o, l, now)
 	case "del":
 		o.Call = now()
 		res := tr.Delete(o.Path)
